@@ -25,9 +25,6 @@ Inductive pval :=
 | PMap (m : list (ustring * pval))        (* dict-valued property (hashes, dictionary, extensions, objects) *)
 | PObject (cid : ustring) (inner : list (ustring * pval)) (defaulted : list ustring) (hc : bool).
 
-Definition now_marker : ustring := u "<now>".
-Definition uuid4_marker : ustring := u "<uuid4>".
-Definition detid_marker : ustring := u "<det-id>".
 
 Fixpoint encode (incl : bool) (v : pval) : jvalue :=
   match v with
@@ -90,6 +87,7 @@ Fixpoint udedup (l : list ustring) : list ustring :=
 (* -------------------------------------------------- registries, type tests *)
 Section World.
   Variable vr : variant.       (* which of the C02 defect variants the code under test matches *)
+  Variable ev : env.           (* clock reading, uuid4 and uuid5 texts *)
   Variable w : world.
   (* oracles: the pattern validator of the stix2patterns package and granular-marking
      selector validation (restated by the C08 model) *)
@@ -131,7 +129,7 @@ Section World.
   Fixpoint ver_max (l : list ver) : ver :=
     match l with [] => V20 | V21 :: _ => V21 | V20 :: r => ver_max r end.
 
-  Fixpoint detect_version (fuel : nat) (d : list (ustring * jvalue)) : result ver :=
+  Fixpoint detect_version (fuel : nat) (d : list (ustring * jvalue)) : result (option ver) :=
     match fuel with
     | O => Err EOutOfFuel
     | S f =>
@@ -140,29 +138,35 @@ Section World.
       | Some ty =>
         match alookup (u "spec_version") d with
         | Some sv =>
-          if jvalue_eqb ty (JStr (u "bundle")) then Ok V20
+          if jvalue_eqb ty (JStr (u "bundle")) then Ok (Some V20)
           else match sv with
-               | JStr s => if ustr_eqb s (u "2.1") then Ok V21 else if ustr_eqb s (u "2.0") then Ok V20
-                           else Unmodelled      (* an unknown version string is used as a registry key *)
-               | _ => Unmodelled
+               | JStr s => if ustr_eqb s (u "2.1") then Ok (Some V21) else if ustr_eqb s (u "2.0") then Ok (Some V20)
+                           else Ok None         (* an unknown version is a registry key that finds nothing *)
+               | JArr _ | JObj _ => Err ETypeError      (* unhashable registry key *)
+               | _ => Ok None
                end
         | None =>
-          if negb (amem (u "id") d) then Ok V20
+          if negb (amem (u "id") d) then Ok (Some V20)
           else if jvalue_eqb ty (JStr (u "bundle")) then
             match alookup (u "objects") d with
-            | None => Err EKeyError
+            | None => if vr_detect_default vr then Ok (Some V21) else Err EKeyError
             | Some (JArr objs) =>
-              (fix go (l : list jvalue) : result ver :=
+              (fix go (l : list jvalue) : result (option ver) :=
                  match l with
-                 | [] => match objs with [] => Err EValueError | _ => Ok V21 end   (* max("2.1", max(...)) *)
-                 | JObj o :: r => do _ <- detect_version f o; go r
+                 | [] => match objs with
+                         | [] => if vr_detect_default vr then Ok (Some V21) else Err EValueError
+                         | _ => Ok (Some V21)
+                         end   (* max("2.1", max(...)) *)
+                 | JObj o :: r => do mv <- detect_version f o;
+                                  match mv with Some _ => go r | None => Unmodelled end   (* max() over arbitrary values *)
                  | _ :: _ => Err ETypeError
                  end) objs
             | Some _ => Unmodelled
             end
           else match ty with
-               | JStr t => Ok (if amem t (robservables (wreg21 w)) then V21 else V20)
-               | _ => Unmodelled
+               | JStr t => Ok (Some (if amem t (robservables (wreg21 w)) then V21 else V20))
+               | JArr _ | JObj _ => Err ETypeError
+               | _ => Ok (Some V20)
                end
         end
       end
@@ -236,7 +240,8 @@ Section World.
     do s <- py_str v;
     do _ <- validate_id vr s vv None interop;
     let t := fst (split_dashdash s) in
-    let flip := allow && white && (match generics with [] => false | _ => true end) in
+    let flip := allow && white && (match generics with [] => false | _ => true end)
+                && (if vr_ref_flip_unreg vr then negb (is_object t vv) else true) in
     let white' := if flip then false else white in
     let generics' := if flip then filter (fun g => negb (mem_ustr g generics)) all_generics else generics in
     let specifics' := if flip then [] else specifics in
@@ -319,7 +324,7 @@ Section World.
     | KBool => clean_bool v
     | KTime p c =>
       match v with
-      | JStr s => do r <- ts_clean p c s; Ok (PTime (fst r) (snd r), false)
+      | JStr s => do r <- ts_clean (vr_year_pad vr) p c s; Ok (PTime (fst r) (snd r), false)
       | _ => Err ETypeError
       end
     | KDict vv => do d <- clean_dictionary vv v; Ok (PJ (JObj d), false)
@@ -327,12 +332,9 @@ Section World.
     | KBinary =>
       match v with
       | JStr s =>
-        (* canonical base64 text is accepted; anything else depends on binascii's padding rules *)
-        if forallb (fun c => is_digit c || is_lower c || is_upper c || (c =? 43)%N || (c =? 47)%N) s
-           && Nat.eqb (Nat.modulo (List.length s) 4) 0
-        then Ok (PJ v, false) else Unmodelled
-      | JInt _ | JBool _ | JFloat _ | JNull => Err EValueError
-      | _ => Unmodelled
+        (* b64decode of a str: non-ASCII text is a ValueError, otherwise binascii's non-strict scan *)
+        if all_ascii s && b64_ok s then Ok (PJ v, false) else Err EValueError
+      | _ => Err EValueError        (* TypeError from b64decode, re-raised as ValueError *)
       end
     | KHex =>
       match v with
@@ -343,7 +345,7 @@ Section World.
     | KSelector =>
       match v with
       | JStr s => if negb (all_ascii s) then Unmodelled
-                  else if re_selector (vr_sel_z vr) s then Ok (PJ v, false) else Err EValueError
+                  else if re_selector (vr_sel_z vr) (vr_sel_upper vr) s then Ok (PJ v, false) else Err EValueError
       | _ => Err ETypeError
       end
     | KEmbedded cid =>
@@ -525,7 +527,7 @@ Section World.
       (u "green", u "marking-definition--34098fce-860f-48ae-8e50-ebd3cc5e41da");
       (u "amber", u "marking-definition--f88d31f6-486f-44da-b317-01333bde0b82");
       (u "red", u "marking-definition--5e57c739-391a-4eb3-b6be-7d15ca92d5ed") ].
-  Definition tlp_created_us : Z := ts_instant {| ts_y := 2017; ts_mo := 1; ts_d := 20; ts_h := 0; ts_mi := 0; ts_s := 0; ts_us := 0 |}.
+  Definition tlp_created_text : ustring := u "2017-01-20T00:00:00.000Z".
 
   (* check_tlp_marking *)
   Definition check_tlp (inner : list (ustring * pval)) : result unit :=
@@ -540,11 +542,10 @@ Section World.
           | Some id =>
             match pget (u "id") inner, pget (u "created") inner with
             | Some (PJ (JStr i)), Some (PTime us txt) =>
+              (* format_datetime(created), i.e. the text written with the stored precision *)
               if negb (ustr_eqb i id) then Err ETLPMarkingDefinition
-              else if (us =? tlp_created_us)%Z then Ok tt
-              else Unmodelled   (* compares the text written with the stored precision; sub-millisecond cases restated in C15 *)
-            | Some (PJ (JStr i)), Some (PJ (JStr _)) =>
-              if negb (ustr_eqb i id) then Err ETLPMarkingDefinition else Unmodelled
+              else if ustr_eqb txt tlp_created_text then Ok tt
+              else Err ETLPMarkingDefinition
             | _, _ => Unmodelled
             end
           | None => Ok tt
@@ -632,7 +633,8 @@ Section World.
   Definition check_property (c : cls) (s : slot) (allow interop : bool) (valid_refs : option (list (ustring * ustring)))
              (setting : list (ustring * pval)) : result (list (ustring * pval) * bool) :=
     let n := sname s in
-    let with_default : result (list (ustring * pval) * bool) :=   (* (setting', came_from_marker) *)
+    (* a default value goes through clean() like a given one; the clock reading is a datetime *)
+    let with_default : result (list (ustring * pval) * bool) :=   (* (setting', value is the clock reading) *)
         match alookup n setting with
         | Some _ => Ok (setting, false)
         | None =>
@@ -642,20 +644,24 @@ Section World.
                       | KFixed fv _ => Ok (aset n (PJ (JStr fv)) setting, false)
                       | _ => Unmodelled
                       end
-          | DNow => Ok (aset n (PJ (JStr now_marker)) setting, true)
+          | DNow => match skind s with
+                    | KTime p c => do r <- ts_clean_now (vr_year_pad vr) p c (e_now ev);
+                                   Ok (aset n (PTime (fst r) (snd r)) setting, true)
+                    | _ => Unmodelled
+                    end
           | DUuid4 => match skind s with
-                      | KId prefix _ => Ok (aset n (PJ (JStr (prefix ++ uuid4_marker))) setting, true)
+                      | KId prefix _ => Ok (aset n (PJ (JStr (prefix ++ e_uuid4 ev))) setting, false)
                       | _ => Unmodelled
                       end
           | DConst j => Ok (aset n (PJ j) setting, false)
           end
         end in
     do sd <- with_default;
-    let '(setting1, marker) := sd in
+    let '(setting1, isnow) := sd in
     match alookup n setting1 with
     | None => Ok (setting1, false)
     | Some raw =>
-      if marker then Ok (setting1, false) else
+      if isnow then Ok (setting1, false) else
       match raw with
       | PJ j =>
         match clean_kind (skind s) allow interop j with
@@ -700,7 +706,7 @@ Section World.
     match e with
     | JObj m => Ok (jvalue_eqb (match alookup (u "extension_type") m with Some t => t | None => JNull end)
                                (JStr (u "toplevel-property-extension")))
-    | _ => Err EAttributeError
+    | _ => if vr_ext_scan_guard vr then Ok false else Err EAttributeError
     end.
 
   Definition construct_generic (fuel : nat) (c : cls) (allow0 interop : bool) (kwargs0 : list (ustring * jvalue))
@@ -731,12 +737,13 @@ Section World.
                 do t <- ext_is_toplevel e;
                 if t then
                   match class_for eid V21 2%N with
-                  | Some _ => Err EAttributeError     (* built-in extension classes have no _toplevel_properties *)
+                  | Some _ => if vr_ext_scan_guard vr then go r
+                              else Err EAttributeError     (* built-in extension classes have no _toplevel_properties *)
                   | None => do _ <- go r; Ok true
                   end
                 else go r
               end) exts
-         | _ => Err EAttributeError
+         | _ => if vr_ext_scan_guard vr then Ok false else Err EAttributeError
          end
        end;
     let prop_names := map sname (cslots c) in
@@ -824,6 +831,7 @@ Inductive request :=
 
 Section Knot.
   Variable vr : variant.
+  Variable ev : env.
   Variable w : world.
   Variable pattern_ok : ver -> ustring -> bool.
   Variable selectors_ok : list (ustring * pval) -> pval -> result bool.
@@ -853,7 +861,7 @@ Section Knot.
                             | FSco => Some (match valid_refs0 with Some r => r | None => [] end)
                             | _ => None
                             end in
-          let generic := construct_generic vr w pattern_ok selectors_ok recc recp reco fuel in
+          let generic := construct_generic vr ev w pattern_ok selectors_ok recc recp reco fuel in
           do obj <-
             match cinit c with
             | INone | IObservedDataWarn | IBundleObjects => generic c allow interop kwargs0 [] valid_refs
@@ -918,7 +926,7 @@ Section Knot.
             if amem (u "id") kwargs0 then Ok obj
             else if existsb (fun p => amem p inner) (cidcontrib c) then
               match ctype c with
-              | Some t => Ok (PObject ocid (aset (u "id") (PJ (JStr (t ++ u "--" ++ detid_marker))) inner) dfl hc)
+              | Some t => Ok (PObject ocid (aset (u "id") (PJ (JStr (t ++ u "--" ++ e_uuid5 ev))) inner) dfl hc)
               | None => Unmodelled
               end
             else Ok obj
@@ -929,11 +937,18 @@ Section Knot.
         match alookup (u "type") d with
         | None => Err EParse
         | Some ty =>
-          do vv <- match version with Some v => Ok v | None => detect_version w (S f) d end;
+          do ovv <- match version with Some v => Ok (Some v) | None => detect_version vr w (S f) d end;
           match ty with
-          | JStr t =>
-            match (match class_for w t vv 0%N with Some c => Some c | None => class_for w t vv 1%N end) with
-            | Some k => run f (RConstruct k allow interop d None)
+          | JArr _ | JObj _ => Err ETypeError       (* unhashable registry key *)
+          | _ =>
+            let found := match ty, ovv with
+                         | JStr t, Some vv => match class_for w t vv 0%N with Some c => Some c | None => class_for w t vv 1%N end
+                         | _, _ => None              (* a non-string type / an unknown version finds no class *)
+                         end in
+            match found with
+            | Some k =>
+              do o <- run f (RConstruct k allow interop d None);
+              if vr_parse_guard_custom vr && negb allow && pval_has_custom o then Err ECustomContent else Ok o
             | None =>
               if allow then Ok (PJ (JObj d)) else
               match alookup (u "extensions") d with
@@ -955,31 +970,30 @@ Section Knot.
                        end
                      else go rest
                    | (k, _) :: rest =>
-                     if ustr_prefix (u "extension-definition--") k then Err EAttributeError else go rest
+                     if ustr_prefix (u "extension-definition--") k && negb (vr_d2s_ext_guard vr) then Err EAttributeError
+                     else go rest
                    end) exts
-              | Some _ => Err EAttributeError
+              | Some _ => if vr_d2s_ext_guard vr then Err EParse else Err EAttributeError
               end
             end
-          | JArr _ | JObj _ => Err ETypeError
-          | _ => if allow then Ok (PJ (JObj d)) else Unmodelled
           end
         end
       | RParseObs version refs allow interop d =>
         match alookup (u "type") d with
         | None => Err EParse
         | Some ty =>
-          do vv <- match version with Some v => Ok v | None => detect_version w (S f) d end;
+          do ovv <- match version with Some v => Ok (Some v) | None => detect_version vr w (S f) d end;
           match ty with
-          | JStr t =>
-            match class_for w t vv 1%N with
+          | JArr _ | JObj _ => Err ETypeError
+          | _ =>
+            match (match ty, ovv with JStr t, Some vv => class_for w t vv 1%N | _, _ => None end) with
             | Some k =>
               if amem (u "_valid_refs") d then Unmodelled else
-              run f (RConstruct k allow interop d (Some refs))
+              do o <- run f (RConstruct k allow interop d (Some refs));
+              if vr_parse_guard_custom vr && negb allow && pval_has_custom o then Err ECustomContent else Ok o
             | None =>
               if allow then Ok (PJ (JObj (aset (u "_valid_refs") (refs_json refs) d))) else Err EParse
             end
-          | JArr _ | JObj _ => Err ETypeError
-          | _ => if allow then Ok (PJ (JObj (aset (u "_valid_refs") (refs_json refs) d))) else Err EParse
           end
         end
       end
